@@ -69,6 +69,7 @@ type World struct {
 	nextID int
 	reqs   map[string]*ReqState
 	nreq   int
+	Sched  *Sched // non-nil: handlers park at OpYield
 }
 
 // ReqState is the real-side state of one in-flight request.
@@ -121,7 +122,12 @@ func (w *World) Handler(s *Script) rux.HandlerFunc {
 				st.First(c)
 			}
 		}
-		Run(s, &RCtx{C: c, NoAbt: st.NoAbt}, st.Tr)
+		rc := &RCtx{C: c, NoAbt: st.NoAbt}
+		if w.Sched != nil {
+			id := st.ID
+			rc.Y = func() { w.Sched.Yield(id) }
+		}
+		Run(s, rc, st.Tr)
 	}
 }
 
